@@ -214,6 +214,33 @@ fn drive<'i, N: TypedNode<'i, R> + Debug>(input: &'i str, init: &'i [&'i str], c
     (Got { ok, end, stack }, dbg)
 }
 
+/// The same node on a Span sub-input of a longer text; offsets relative to the start of the sub-input.
+fn drive_span<'i, N: TypedNode<'i, R> + Debug>(input: &str, init: &'i [&'i str], check: bool) -> Got {
+    use pest_typed::{AsInput, Input};
+    let padded: &'static str = crate::common::padded_of(input);
+    let a = crate::common::PAD_BEFORE.len();
+    let mut st: Stack<Span<'i>> = Stack::new();
+    for t in init {
+        st.push(Span::new_full(t));
+    }
+    let inp = Span::new(padded, a, a + input.len()).expect("boundaries").as_input();
+    let mut tr = Tracker::<R>::new(inp);
+    let (ok, end) = if check {
+        match N::try_check_partial_with(inp, &mut st, &mut tr) {
+            Some(p) => (true, p.byte_offset().wrapping_sub(a)),
+            None => (false, 0),
+        }
+    } else {
+        match N::try_parse_partial_with(inp, &mut st, &mut tr) {
+            Some((p, _)) => (true, p.byte_offset().wrapping_sub(a)),
+            None => (false, 0),
+        }
+    };
+    let n = st.len();
+    let stack = if n == 0 { vec![] } else { st[0..n].iter().map(|s| s.as_str().to_string()).collect() };
+    Got { ok, end, stack }
+}
+
 fn compare<'i, N: TypedNode<'i, R> + Debug>(
     what: &str,
     inputs: &'i [String],
@@ -277,6 +304,27 @@ fn compare_on<'i, N: TypedNode<'i, R> + Debug>(
             }
             if let Some(b) = bad {
                 rep.violation(viol("C19", sig_base, input, what.to_string(), 0, 0, format!("{:?}", exp), b, format!("init {:?}", init)));
+            }
+            // the same node on a Span of a longer text (what lies outside the sub-input must not matter)
+            match std::panic::catch_unwind(|| (drive_span::<N>(input, init, false), drive_span::<N>(input, init, true))) {
+                Ok((sp, sc)) => {
+                    for (label, g) in [("parse", &sp), ("check", &sc)] {
+                        if g.ok != p.ok || (p.ok && (g.end != p.end || g.stack != p.stack)) {
+                            rep.violation(viol(
+                                "C19",
+                                "differs-on-span-sub-input",
+                                input,
+                                what.to_string(),
+                                0,
+                                0,
+                                format!("as on the text alone: ok={} end={} stack={:?}", p.ok, p.end, p.stack),
+                                format!("{} on Span of {:?}: ok={} end={} stack={:?}", label, crate::common::padded_of(input), g.ok, g.end, g.stack),
+                                format!("init {:?}", init),
+                            ));
+                        }
+                    }
+                }
+                Err(_) => rep.violation(viol("C19", "panic", input, what.to_string(), 0, 0, format!("{:?}", exp), "panic on a Span sub-input".into(), format!("init {:?}", init))),
             }
             // check vs parse
             if p.ok != c.ok || (p.ok && (p.end != c.end || p.stack != c.stack)) {
@@ -470,6 +518,31 @@ fn atomic_repeat<E: Elem>(inputs: &[String], rep: &mut Report) {
         false,
     );
 }
+#[derive(Clone, Debug, PartialEq)]
+pub struct NeedlesAb;
+impl pest_typed::StringArrayWrapper for NeedlesAb {
+    const CONTENT: &'static [&'static str] = &["ab"];
+}
+#[derive(Clone, Debug, PartialEq)]
+pub struct NeedlesTwo;
+impl pest_typed::StringArrayWrapper for NeedlesTwo {
+    const CONTENT: &'static [&'static str] = &["b ", "aa"];
+}
+/// The skip-repeat node: consumes up to the first occurrence of any of the strings, or everything.
+fn skip_until<W: pest_typed::StringArrayWrapper + Debug + Clone + PartialEq + 'static>(name: &str, inputs: &[String], rep: &mut Report) {
+    let what = format!("Skip<{}>", name);
+    compare::<pest_typed::predefined_node::Skip<'_, W>>(
+        &what,
+        inputs,
+        rep,
+        &|i, st| {
+            let end = (0..=i.len()).filter(|k| i.is_char_boundary(*k)).find(|k| W::CONTENT.iter().any(|n| i[*k..].starts_with(n))).unwrap_or(i.len());
+            Some((end, None, st.to_vec()))
+        },
+        &|_| None,
+        false,
+    );
+}
 fn skip_char<const N: usize>(inputs: &[String], rep: &mut Report) {
     let what = format!("SkipChar<{}>", N);
     compare::<SkipChar<'_, N>>(
@@ -572,6 +645,8 @@ pub fn run(o: &Opts) -> Report {
     all(&inputs, &mut rep);
     all_zero(&inputs, &mut rep);
     zero_width_progress(&inputs, &mut rep);
+    skip_until::<NeedlesAb>("[\"ab\"]", &inputs, &mut rep);
+    skip_until::<NeedlesTwo>("[\"b \", \"aa\"]", &inputs, &mut rep);
     never_failed::<RepMin<Str<A>, Ig, 0, 0>>("RepMin<\"a\",SKIP=0,0>::parse_with", &inputs, &mut rep);
     never_failed::<RepMin<Str<A>, Ig, 1, 0>>("RepMin<\"a\",SKIP=1,0>::parse_with", &inputs, &mut rep);
     never_failed::<RepMin<<EPop as Elem>::Node<'_>, Ig, 1, 0>>("RepMin<POP \"a\",SKIP=1,0>::parse_with", &inputs, &mut rep);
